@@ -191,7 +191,7 @@ func coerceVariableValue(value interface{}, t Type, allowItemToListCoercion bool
 	case *ListType:
 		return t.coerceVariableValue(value, allowItemToListCoercion)
 	case *NonNullType:
-		return CoerceVariableValue(value, t.Type)
+		return coerceVariableValue(value, t.Type, allowItemToListCoercion)
 	default:
 		panic("unexpected variable coercion type")
 	}
@@ -232,7 +232,7 @@ func coerceLiteral(from ast.Value, to Type, variableValues map[string]interface{
 	case *EnumType:
 		return to.CoerceLiteral(from)
 	case *NonNullType:
-		return CoerceLiteral(from, to.Type, variableValues)
+		return coerceLiteral(from, to.Type, variableValues, allowItemToListCoercion)
 	}
 
 	panic("unsupported literal coercion type")
